@@ -36,7 +36,8 @@ def main():
             continue
         own = all(p in r["caught_by"] for p, _ in fixed.get(c, []))
         rows.append(f"| {c} | {props} | {what[:90]} | {r.get('suite')} | {', '.join(r['caught_by']) or '-'} | {'yes' if own else 'NO'} |")
-    with open(os.path.join(VERIF, "selftest", "RESULTS.md"), "w") as f:
+    only = [x for x in os.environ.get("ONLY", "results,seeded,neutral").split(",") if x]
+    with open(os.path.join(VERIF, "selftest", "RESULTS.md") if "results" in only else os.devnull, "w") as f:
         f.write("# Natural mutants: every repaired defect put back\n\n"
                 f"Machinery evaluated: /verif commit {commit}; produced by `selftest/evaluate_all.sh` + `tools/mk_results.py`.\n"
                 "Each row: the reverse patch of one `fix:` commit applied to a scratch copy of /repo, the repository suite run on the copy\n"
@@ -61,7 +62,9 @@ def main():
         prop = meta.get("property", name[-6:-3])
         first = meta.get("caught_by_first_evaluation") or []
         now = meta.get("caught_by") or []
-        own = "yes" if prop in now else ("not claimed (see meta.json)" if meta.get("not_claimed") else "NO")
+        latest = meta.get("own_check_latest") or {}
+        own = "yes" if prop in now else (f"yes (own check alone, {latest.get('commit')})" if latest.get("caught") else
+                                         ("not claimed (see meta.json)" if meta.get("not_claimed") else "NO"))
         srows.append(f"| {name} | {prop} | {meta.get('summary', '')[:100]} | {', '.join(first) or '-'} | {', '.join(now) or '-'} | {own} | {meta.get('evaluated_with_verif_commit', '?')} |")
     with open(os.path.join(VERIF, "seeded", "README.md"), "w") as f:
         f.write("# Seeded changes\n\nEach directory holds a change to robotools written by an independent sub-agent (given only the text of one\n"
@@ -88,9 +91,9 @@ def main():
             continue
         alarms = {c: v["clauses"] for c, v in r.get("checks", {}).items() if v["exit"] != 0}
         nrows.append(f"| {name} | {first[:110]} | {r.get('suite')} | {'none' if not alarms else json.dumps(alarms)} |")
-    with open(os.path.join(VERIF, "selftest", "NEUTRAL.md"), "w") as f:
+    with open(os.path.join(VERIF, "selftest", "NEUTRAL.md") if "neutral" in only else os.devnull, "w") as f:
         f.write("# Behaviour-preserving changes: the checks must stay silent\n\n"
-                "Refactorings (two rounds) written by independent sub-agents that were given all 20 property texts and asked to change\n"
+                "Refactorings (three rounds) written by independent sub-agents that were given all 20 property texts and asked to change\n"
                 "implementation details a careless checker might depend on (messages, exception classes where only 'raises' is required,\n"
                 "validation order, order among equal sort keys, vectorisation, private attributes, shared implementations) while keeping\n"
                 f"every property true. Evaluated with /verif commit {commit}: all 20 quick checks against a scratch copy with the patch.\n\n"
